@@ -346,7 +346,7 @@ func part(line, comp string) string {
 
 func runC17(c *explore.Ctx) {
 	k := c.Pick(1, 2)
-	s := c.Sub("permute-split", fmt.Sprintf("every type system = base (3 blocks) + ≤ %d of %d menu items (valid and faulty), (quick: plus every pair of extension items) under every permutation of its units and every cut of the permuted sequence into 1–3 named sources", k, len(gen.KitMenu)),
+	s := c.Sub("permute-split", fmt.Sprintf("every type system = base (3 blocks) + ≤ %d of %d menu items (valid and faulty), (quick: plus every pair of extension items and every extension × described-definition pair) under every permutation of its units and every cut of the permuted sequence into 1–3 named sources", k, len(gen.KitMenu)),
 		"loads ⇔ the canonical order loads; the loaded schemas have equal canonical dumps; a load error names a source that holds a definition involved in a broken rule", "orderings that load")
 	if s == nil {
 		return
@@ -389,8 +389,20 @@ func runC17(c *explore.Ctx) {
 				exts = append(exts, i)
 			}
 		}
+		// … and every (extension, described definition) pair: a description is per definition
+		var pairs [][2]int
 		for a := 0; a < len(exts); a++ {
 			for b := a + 1; b < len(exts); b++ {
+				pairs = append(pairs, [2]int{exts[a], exts[b]})
+			}
+			for i, it := range gen.KitMenu {
+				if strings.HasPrefix(it, `"`) {
+					pairs = append(pairs, [2]int{exts[a], i})
+				}
+			}
+		}
+		for _, pr := range pairs {
+			{
 				idx++
 				if idx%c.NShards != c.Shard {
 					continue
@@ -399,7 +411,10 @@ func runC17(c *explore.Ctx) {
 					s.Cap("deadline")
 					break
 				}
-				its := []int{exts[a], exts[b]}
+				its := []int{pr[0], pr[1]}
+				if its[0] > its[1] {
+					its[0], its[1] = its[1], its[0]
+				}
 				cn := c17Canonical(its)
 				s.States++
 				explore.Perms(5, func(p []int) {
